@@ -33,6 +33,20 @@ def bounded_inputs(run, n, count):
         yield gen.game_inputs(v, K, n, rng=run.rng)
 
 
+def exact_inputs(run, n, count):
+    """Exactly representable games at several binary scales (integers and eighths times 2^k): every sum, difference,
+    maximum and minimum the computers take is then exact in float64, so the comparison is made with tolerance ZERO."""
+    for i in range(count):
+        v = gen.superadditive_game(run.rng, n, kind=("int", "dyadic")[i % 2], negative=(i % 4 >= 2))
+        sc = 2.0 ** (-40, -36, -33, -20, 0, 24)[i % 6]
+        K = gen.knowledge(run.rng, n)
+        d = gen.game_inputs([x * sc for x in v], K, n, rng=run.rng)
+        for k in list(d):
+            if k.startswith("slo") or k.startswith("sup"):
+                d[k] = d[k] * sc
+        yield d
+
+
 def history_check(run, n, steps, computer):
     """Bounded: random reveal / un-reveal / bulk-reset / recompute histories on the real class."""
     from pyvc.mode import native_pkg
@@ -41,6 +55,8 @@ def history_check(run, n, steps, computer):
     rng = run.rng
     kind = rng.choice(["int", "dyadic"])
     v = gen.superadditive_game(rng, n, kind=kind, negative=rng.random() < 0.5)
+    sc = 2.0 ** rng.choice([-40, -36, -20, 0, 0, 24])          # exactly representable at every scale
+    v = [x * sc for x in v]
     g = game_m.IncompleteCooperativeGame(n, bounds.BOUNDS[computer])
     mini = minimal(n)
     g.set_known_values([v[c] for c in mini], [co.Coalition(c) for c in mini])
@@ -121,6 +137,10 @@ def main(run):
             run.bounded_run(f"float.{comp}[n={n}]", S.sc_sa_bounds, {"n": n, "computer": comp, "functional": False},
                             bounded_inputs(run, n, cnt), tol=1e-9,
                             bound=f"{cnt} seeded superadditive games (int/dyadic/float, negative singletons) x random K x stale rows")
+            if n <= 6:
+                run.bounded_run(f"exact.{comp}[n={n}]", S.sc_sa_bounds, {"n": n, "computer": comp, "functional": False},
+                                exact_inputs(run, n, cnt), tol=0.0,
+                                bound=f"{cnt} exactly representable games (integers / eighths x 2^k, k in -40..24) x random K: tolerance 0")
     fails = 0
     hcount = 0
     for n in (3, 4, 5):
